@@ -38,6 +38,8 @@ def run(ctx):
         ephs = distinct_scalars(rng, necc * nf * nw)
         hist.append(f"prop.c07 {nf},{nw} {f['blocks']} {f['encs']} {ephs} {hx(g.rbytes(rng, 16 * nf))}")
         k2 = g.gen_key(rng)
+        while hx(k2) == f['key']:      # the splice needs two different session keys
+            k2 = g.rbytes(rng, 16)
         e2 = ",".join(str(gb.gen_scalar(rng)) for _ in range(2 * necc)) or "-"
         splice.append(f"prop.c07splice {f['key']} {hx(k2)} {f['blocks']} {f['encs']} {e2}")
         e3 = ",".join(str(gb.gen_scalar(rng)) for _ in range(necc)) or "-"
